@@ -14,7 +14,7 @@ import (
 func init() {
 	register(&Prop{
 		ID:          "C05",
-		Explanation: "Decides the wiring that binds token response to authorization request. Nonce: on every saving path of the callback csrf.SetSessionNonce(session) on the loaded CSRF cookie precedes provider.ValidateSession(session)==true; OIDCProvider.ValidateSession returns true only with Verifier.Verify(s.IDToken) ok and (SkipNonce or checkNonce(s)==nil); checkNonce returns nil only after s.CheckNonce(value extracted from the \"nonce\" claim of s.IDToken)==true; SessionState.CheckNonce and encryption.CheckNonce compare the hash of the session nonce with hmac.Equal; every ValidateSession override of an OIDC-embedding provider delegates to it. PKCE: with a challenge method configured the verifier given to NewCSRF is the fresh result of GenerateCodeVerifierString(n), 32<=n<=96, unpadded URL-safe base64 of n crypto/rand bytes; its only other use is GenerateCodeChallenge(method, verifier) whose result is the code_challenge parameter; the verifier redeemed is GetCodeVerifier() of the loaded CSRF cookie, handed unchanged to provider.Redeem, and every Redeem implementation sends it as code_verifier or delegates; the login URL receives only HashOAuthState()/HashOIDCNonce(); the raw nonce/verifier fields have a closed reader set; the PKCE method in force (ProviderData.CodeChallengeMethod) is written only from the operator's option. Added during the build: the challenge method sent and the one used to derive the challenge come from the same configuration value (R7). Round 3: the legacy conversion lets force-code-challenge-method alone select the method (R8); a Redeem implementation's verifier flows only into the code_verifier parameter and the parameter set carrying it is used only through url.Values methods (R9). Round 4: the structured configuration's providers reach Options.Providers as written and the legacy skip-nonce flag maps to the skip-nonce option (R10). Round 5: in every function that adds code_verifier to the token request, each error-free return on which the verifier is not known to be empty has passed the add (under R9; shared with C03.R8).",
+		Explanation: "Decides the wiring that binds token response to authorization request. Nonce: on every saving path of the callback csrf.SetSessionNonce(session) on the loaded CSRF cookie precedes provider.ValidateSession(session)==true; OIDCProvider.ValidateSession returns true only with Verifier.Verify(s.IDToken) ok and (SkipNonce or checkNonce(s)==nil); checkNonce returns nil only after s.CheckNonce(value extracted from the \"nonce\" claim of s.IDToken)==true; SessionState.CheckNonce and encryption.CheckNonce compare the hash of the session nonce with hmac.Equal; every ValidateSession override of an OIDC-embedding provider delegates to it. PKCE: with a challenge method configured the verifier given to NewCSRF is the fresh result of GenerateCodeVerifierString(n), 32<=n<=96, unpadded URL-safe base64 of n crypto/rand bytes; its only other use is GenerateCodeChallenge(method, verifier) whose result is the code_challenge parameter; the verifier redeemed is GetCodeVerifier() of the loaded CSRF cookie, handed unchanged to provider.Redeem, and every Redeem implementation sends it as code_verifier or delegates; the login URL receives only HashOAuthState()/HashOIDCNonce(); the raw nonce/verifier fields have a closed reader set; the PKCE method in force (ProviderData.CodeChallengeMethod) is written only from the operator's option. Added during the build: the challenge method sent and the one used to derive the challenge come from the same configuration value (R7). Round 3: the legacy conversion lets force-code-challenge-method alone select the method (R8); a Redeem implementation's verifier flows only into the code_verifier parameter and the parameter set carrying it is used only through url.Values methods (R9). Round 4: the structured configuration's providers reach Options.Providers as written and the legacy skip-nonce flag maps to the skip-nonce option (R10). Round 5: in every function that adds code_verifier to the token request, each error-free return on which the verifier is not known to be empty has passed the add (under R9; shared with C03.R8). Round 6: the Set-Cookie lines queued on a response, the CSRF cookie's expiry among them, are never deleted or reassigned by hand (R11, shared with C18.R1).",
 		NotDecided:  "identity-provider behaviour; 'never repeated' beyond fresh-per-call crypto/rand (entropy trusted); msgpack reflection reads of the csrf fields (serialisation into the encrypted cookie) are not modelled as reads.",
 		Run:         runC05,
 	})
@@ -29,6 +29,8 @@ func runC05(c *Ctx) {
 	r.Rule("R5-redemption", "redeemed verifier is GetCodeVerifier() of the loaded CSRF cookie and reaches the token request as code_verifier in every Redeem implementation", 8)
 	r.Rule("R7-method-from-config", "ProviderData.CodeChallengeMethod is written only from the operator's option", 2)
 	r.Rule("R10-alpha-providers-verbatim", "the structured configuration's providers reach Options.Providers as written; the legacy skip-nonce flag maps to the skip-nonce option", 2)
+	r.Rule("R11-queued-cookie-expiry-kept", "the Set-Cookie lines queued on a response (the expiry of the finished login's CSRF cookie among them) are never deleted or reassigned by hand (shared with C18.R1)", 1)
+	runQueuedCookiesUntouched(c, "R11-queued-cookie-expiry-kept")
 	r.Rule("R8-legacy-force-method", "the legacy conversion lets force-code-challenge-method alone select the PKCE method", 2)
 	r.Rule("R9-verifier-only-to-token-request", "every Redeem implementation sends its verifier only as code_verifier of the token request; the parameter set carrying it is used only through url.Values methods", 4)
 	r.Rule("R6-hashed-on-wire", "login URL gets only hashed state/nonce; raw csrf fields have a closed reader set", 10)
